@@ -2,6 +2,35 @@
 // (reassembly and tcpassembly live in their own binaries: they cannot be linked together.)
 package main
 
-import "verif/harness/internal/vlib"
+import (
+	"fmt"
 
-func main() { vlib.ChildMain() }
+	"github.com/gopacket/gopacket/layers"
+
+	"verif/harness/internal/vlib"
+)
+
+// canaryProps are the properties whose statement a write to the library's package-level zero buffer violates: decoding must
+// be free of side effects and depend on nothing but its input (C02), serialized bytes must depend only on layer, payload
+// and options (C07) - serializers copy padding from that buffer, decoders must never write to it.
+var canaryProps = map[string]bool{"C02": true, "C07": true}
+
+func main() {
+	vlib.EndHook = func(c *vlib.Ctx) {
+		if !canaryProps[c.Prop] {
+			return
+		}
+		z := layers.VerifLotsOfZeros()
+		for i, b := range z {
+			if b != 0 {
+				c.Violation("global-zero-buffer-modified", fmt.Sprintf("the package-level zero buffer of gopacket/layers (handed out as padding by serializers) holds %#02x at index %d after this case: something wrote into shared state", b, i), nil)
+				for j := range z {
+					z[j] = 0 // so that later cases are judged on their own
+				}
+				return
+			}
+		}
+		c.Count("zero_buffer_canary_checks", 1)
+	}
+	vlib.ChildMain()
+}
